@@ -672,6 +672,7 @@ fn listen_spec(s: &str) -> Option<Vec<Multiaddr>> {
 
 impl NodeBox {
     pub fn new() -> Self {
+        crate::verif::enable_config_notes();
         Self {
             rt: Some(
                 tokio::runtime::Builder::new_multi_thread()
